@@ -68,7 +68,17 @@ BigConfigs ==
                Big("dense", 33, 1, 1, 70, 1, 1, 1, 1, 0, 0, "linear", FALSE),
                Big("dense", 600, 1, 1, 2, 1, 1, 1, 1, 0, 0, "linear", TRUE)} : c.kind \in Kinds}
 
-Lattice == BigConfigs \cup (IF "conv" \in Kinds THEN ConvLattice ELSE {}) \cup (IF "deconv" \in Kinds THEN DeconvLattice ELSE {})
+\* Strides of three and four (the lattice stops at two): the windows then leave a remainder of two or three rows / columns
+\* of the padded input unread, and the two axes differ
+WideStrideConfigs ==
+  {c \in {Big("conv", 1, 8, 8, 1, 3, 3, 3, 3, 0, 0, "linear", FALSE),
+           Big("conv", 1, 7, 9, 2, 2, 2, 3, 4, 0, 1, "relu", FALSE),
+           Big("conv", 2, 6, 8, 1, 2, 3, 4, 3, 1, 0, "linear", FALSE),
+           Big("deconv", 1, 3, 3, 1, 2, 2, 3, 2, 0, 0, "linear", FALSE),
+           Big("deconv", 2, 2, 3, 1, 3, 2, 2, 3, 1, 0, "relu", FALSE),
+           Big("pool", 1, 8, 9, 1, 2, 2, 3, 4, 0, 0, "linear", FALSE)} : c.kind \in Kinds}
+
+Lattice == WideStrideConfigs \cup BigConfigs \cup (IF "conv" \in Kinds THEN ConvLattice ELSE {}) \cup (IF "deconv" \in Kinds THEN DeconvLattice ELSE {})
            \cup (IF "pool" \in Kinds THEN PoolLattice ELSE {}) \cup (IF "dense" \in Kinds THEN DenseLattice ELSE {})
 
 \* ---- data ---------------------------------------------------------------------
